@@ -258,6 +258,13 @@ def make_counting(base=0):
   return Counting(base)
 
 
+def make_lazy_counting(base=0):
+  """A factory that hands back a *lazy* object (the traced constructor call): evaluation resolves it to the instance."""
+  _count('make_lazy_counting')
+  from ml_metrics._src.chainables import lazy_fns  # pylint: disable=g-import-not-at-top
+  return lazy_fns.trace(Counting)(base)
+
+
 def counted_add(x, y=0):
   _count('counted_add')
   return x + y
